@@ -113,7 +113,8 @@ Definition prio_of (cr : Carrier) (l : list Energy) : bool :=
 Record CrCtx := mkCtx {
   cx_cr : Carrier;
   cx_lm : bool;
-  cx_list : list Energy;          (* components of the carrier *)
+  cx_srcs : list ProdSource;      (* production sources declared for the carrier (keys of by_src maps) *)
+  cx_srvs : list Service;         (* EPB services declared for the carrier (keys of by_srv maps) *)
   cx_prio : bool;
   cx_steps : list StepR
 }.
@@ -124,12 +125,38 @@ Definition steps_of (pr lm : bool) (l : list Energy) (idx : list nat) : list Ste
 Definition mk_ctx (cr : Carrier) (lm : bool) (data : list Energy) : CrCtx :=
   let l := filter (has_carrier cr) data in
   let pr := prio_of cr l in
-  mkCtx cr lm l pr (steps_of pr lm l (seq 0 (num_steps_of l))).
+  mkCtx cr lm (filter (fun j => existsb (is_prod_src j) l) all_prodsources)
+        (filter (fun v => existsb (is_epb_use_srv v) l) epb_services)
+        pr (steps_of pr lm l (seq 0 (num_steps_of l))).
 
-Definition has_src (x : CrCtx) (j : ProdSource) : bool := existsb (is_prod_src j) (cx_list x).
-Definition has_srv (x : CrCtx) (s : Service) : bool := existsb (is_epb_use_srv s) (cx_list x).
-Definition srcs_present (x : CrCtx) : list ProdSource := filter (has_src x) all_prodsources.
-Definition srvs_present (x : CrCtx) : list Service := filter (has_srv x) epb_services.
+Definition has_src (x : CrCtx) (j : ProdSource) : bool := existsb (ProdSource_beq j) (cx_srcs x).
+Definition has_srv (x : CrCtx) (s : Service) : bool := existsb (Service_beq s) (cx_srvs x).
+Definition srcs_present (x : CrCtx) : list ProdSource := cx_srcs x.
+Definition srvs_present (x : CrCtx) : list Service := cx_srvs x.
+
+Lemma existsb_beq_filter_ps (p : ProdSource -> bool) j :
+  existsb (ProdSource_beq j) (filter p all_prodsources) = p j.
+Proof. destruct j; cbn; destruct (p EL_INSITU), (p EL_COGEN), (p PS_TERMOSOLAR), (p PS_EAMBIENTE); reflexivity. Qed.
+Lemma existsb_beq_filter_srv (p : Service -> bool) v :
+  existsb (Service_beq v) (filter p epb_services) = srv_is_epb v && p v.
+Proof. destruct v; cbn; destruct (p ACS), (p CAL), (p REF), (p VEN), (p ILU); reflexivity. Qed.
+
+Lemma has_src_mk cr lm data j :
+  has_src (mk_ctx cr lm data) j = existsb (is_prod_src j) (filter (has_carrier cr) data).
+Proof. unfold has_src, mk_ctx. cbn [cx_srcs]. apply existsb_beq_filter_ps. Qed.
+Lemma is_epb_use_srv_epb v e : is_epb_use_srv v e = true -> srv_is_epb v = true.
+Proof.
+  unfold is_epb_use_srv, has_service. destruct e as [? ? s ? ?|? ? ? ?|? s ? ?|? s ? ?]; cbn; try discriminate;
+    destruct s, v; cbn; try discriminate; reflexivity.
+Qed.
+Lemma has_srv_mk cr lm data v :
+  has_srv (mk_ctx cr lm data) v = existsb (is_epb_use_srv v) (filter (has_carrier cr) data).
+Proof.
+  unfold has_srv, mk_ctx. cbn [cx_srvs]. rewrite existsb_beq_filter_srv.
+  destruct (srv_is_epb v) eqn:E; [reflexivity|]. cbn [andb]. symmetry.
+  induction (filter (has_carrier cr) data) as [|e l IH]; [reflexivity|]. cbn [existsb]. rewrite IH.
+  destruct (is_epb_use_srv v e) eqn:F; [|reflexivity]. apply is_epb_use_srv_epb in F. congruence.
+Qed.
 
 Definition vec (x : CrCtx) (f : StepR -> Qc) : list Qc := map f (cx_steps x).
 Definition ann (x : CrCtx) (f : StepR -> Qc) : Qc := qsum (vec x f).
@@ -279,7 +306,7 @@ Definition add_cgn_factors (fs : list Factor) (data : list Energy) : res (list F
 
 (** ** Whole building *)
 Definition avail_carriers (data : list Energy) : list Carrier :=
-  filter (fun cr => existsb (fun e => (is_used e || is_generated e) && has_carrier cr e) data) all_carriers.
+  filter (fun cr => existsb (fun e => (is_used e || is_generated e || is_aux e) && has_carrier cr e) data) all_carriers.
 
 (** a carrier's balance: flows, k-independent weighted parts, and k_exp *)
 Record BalCr := mkBalCr { bc_ctx : CrCtx; bc_parts : WParts; bc_k : Qc }.
